@@ -338,7 +338,7 @@ UNITS = {
         "contracts": ["contracts/json_object.vc"],
     },
     "config": {
-        "preludes": ["shims/core.rs", "shims/bytes.rs", "shims/config.rs"],
+        "preludes": ["shims/core.rs", "shims/bytes.rs", "shims/config.rs", "shims/config_env.rs"],
         "specs": ["contracts/spec/config.rs"],
         "sources": [
             SYMBOL_SRC,
@@ -357,6 +357,24 @@ UNITS = {
             ("src/entry_point/mod.rs", ["struct:Config", "consts:Config", "fn:set_default_values"]),
         ],
         "contracts": ["contracts/defaults.vc"],
+    },
+    # property C12: the start-up code with the process environment threaded through as ghost state (rwsx rule R-WORLD)
+    "settings": {
+        "preludes": ["shims/core.rs", "shims/bytes.rs", "shims/config.rs", "shims/world.rs"],
+        "specs": ["contracts/spec/config.rs", "contracts/spec/settings_tbl.rs", "contracts/spec/settings.rs"],
+        "world": ["rws_env_var", "rws_env_set_var", "set_default_values", "bootstrap", "read_system_environment_variables",
+                  "override_environment_variables_from_config", "override_environment_variables_from_command_line_args", "read_config_file",
+                  "CommandLineArgument::_parse", "CommandLineArgument::set_environment_variable", "get_ip_port_thread_count", "get_request_allocation_size"],
+        "sources": [
+            SYMBOL_SRC,
+            ("src/entry_point/mod.rs", ["struct:Config", "consts:Config", "fn:bootstrap", "fn:set_default_values"]),
+            ("src/entry_point/environment_variables/mod.rs", ["fn:read_system_environment_variables"]),
+            ("src/entry_point/command_line_args/mod.rs", ["struct:CommandLineArgument", "fn:override_environment_variables_from_command_line_args",
+                                                          "fn:CommandLineArgument::get_command_line_arg_list", "fn:CommandLineArgument::_parse",
+                                                          "fn:CommandLineArgument::set_environment_variable"]),
+            ("src/entry_point/config_file/mod.rs", ["fn:read_config_file", "fn:strip_comment", "fn:strip_whitespaces", "fn:override_environment_variables_from_config"]),
+        ],
+        "contracts": ["contracts/settings.vc"],
     },
     "urlpath": {
         "preludes": ["shims/core.rs", "shims/bytes.rs", "shims/strslice.rs", "shims/urlpath.rs"],
@@ -697,6 +715,22 @@ PROPS = {
         "assumptions": [
             "the process environment is what bootstrap() wrote (precedence of sources is C12, not covered): grants are proved relative to the values env::var returns",
             "Request::get_header returns the first header matching up to letter case (assumed here, proved in unit request_parse)",
+        ],
+    },
+    "C12": {
+        "units": ["settings"],
+        "level": "proof",
+        "falsifier": [],
+        "samples": [
+            "theorem_c12 / for every setting i: after set_default_values(); bootstrap() the environment holds effective(i) = command line value if any, else configuration file value if any, else the environment's value if any, else the documented default",
+            "CommandLineArgument::_parse / postcondition / final(env) == apply_args(old(env), words)  (each word p=v whose p is a documented spelling sets that setting's variable, in order)",
+            "read_config_file / postcondition / file_ok ==> final(env) == apply_args(old(env), file_args(lines, prefix)); otherwise Err and the environment untouched",
+            "set_default_values / postcondition / defaults_applied(old(env), final(env))",
+        ],
+        "assumptions": [
+            "the process environment is modelled as ghost state threaded through the start-up functions by the extractor (rule R-WORLD); nothing else writes it during start-up (single thread, before the pool exists)",
+            "std::env::args / std::fs::read_to_string / BufRead::lines / FileExt::get_static_filepath: uninterpreted functions of the process and the file system (the theorem is relative to what they return)",
+            "the table of settings (spellings, variables, defaults, TOML keys) is transcribed from the repository's documentation files",
         ],
     },
     "C03": {
